@@ -25,9 +25,9 @@ def plan(prop, tier, seed, t0):
     q = tier == "quick"
     # at most 6 TLC workers / 6 trace shards validated in parallel
     W = 6
-    mcs = [dict(name="gen6", module="MC_Gen.tla", cfg="MC_Gen_q.cfg" if q else "MC_Gen_t.cfg", workers=W, timeout=600 if q else 3000),
-           dict(name="gen4", module="MC_Gen.tla", cfg="MC_Gen_q4.cfg" if q else "MC_Gen_t4.cfg", workers=W, timeout=600 if q else 3000)]
-    T = dict(module="Trace_Gen.tla", cfg="Trace_Gen.cfg", shards=W, timeout=1500 if q else 3000)
+    mcs = [dict(name="gen6", module="MC_Gen.tla", cfg="MC_Gen_q.cfg" if q else "MC_Gen_t.cfg", workers=W, timeout=3000 if q else 9000),
+           dict(name="gen4", module="MC_Gen.tla", cfg="MC_Gen_q4.cfg" if q else "MC_Gen_t4.cfg", workers=W, timeout=3000 if q else 9000)]
+    T = dict(module="Trace_Gen.tla", cfg="Trace_Gen.cfg", shards=W, timeout=3000 if q else 9000)
     th = [] if q else ["--thorough"]
     traces = [
         dict(name="circuits", engine="gen", args=["--gens", "random_circuit,pauli_gadget,surface_code", "--seeds", 4 if q else 40] + th, **T),
